@@ -302,6 +302,39 @@ func runCheck(o *options) int {
 		}
 	}
 	solveAll(units, work, o.tier, o.seed, o.workers)
+	// last resort against load: an obligation on which every solver ran out of time (no answer,
+	// no candidate model) is tried once more with a long budget while nothing else is running -
+	// a time-out on a loaded machine says nothing about the code (at most four such obligations)
+	{
+		type slowJob struct {
+			u *Unit
+			o *Obl
+		}
+		var slow []slowJob
+		for _, u := range units {
+			for _, ob := range u.Obls {
+				if !ob.MustSat && (ob.Result == "timeout" || ob.Result == "unknown") && !knownObl[oblStem(ob.Name)] {
+					slow = append(slow, slowJob{u, ob})
+				}
+			}
+		}
+		if len(slow) <= 4 && o.tier != "candidate" {
+			for i, sj := range slow {
+				solveObl(sj.u.vc, sj.o, work, "last", o.seed, 9000+i)
+			}
+		}
+	}
+	// call-site obligations that fail inside a contract-less unexported helper are decided at the
+	// helper's call sites (delegate.go)
+	if onlyRE == nil {
+		unitFns := map[*Unit]*ssa.Function{}
+		for _, u := range units {
+			if u.fn != nil {
+				unitFns[u] = u.fn
+			}
+		}
+		units = append(units, delegateToCallers(p, db, o, units, unitFns, sweepSet, work)...)
+	}
 	tSolve := time.Since(t0).Seconds() - tLoad - tGen
 
 	known := loadKnown(o.verif)
